@@ -47,3 +47,29 @@ def table(ctx):
       facs = util.GetAttachedFactors(key.test_info, "N_FACTORS")
       ctx.check(ret is True and facs == {int(p), int(q)}, "CheckKeypairDenylist flags the key and records both primes",
                 dict(seed_first_byte=b0, bits=bits), observed=[ret, facs])
+
+
+from pyvc.registry import ground
+
+
+@ground("C18", "shipped_keypair_table_shape")
+def _shape_c18():
+  return _table_shape()
+
+
+@ground("C06", "shipped_keypair_table_shape")
+def _shape_c06():
+  return _table_shape()
+
+
+def _table_shape():
+  """The precondition of CheckKeypairDenylist.Check's contract on self._table, decided for the SHIPPED table: every
+  entry is one seed byte followed by (position, value) pairs with positions inside the 32-byte seed."""
+  from pyvc import runtime
+  runtime.install()
+  from paranoid_crypto.lib.data import default_storage
+  tab = dict(default_storage.DefaultStorage().GetKeypairData().table)
+  bad = [hex(k) for k, v in tab.items()
+         if len(bytes(v)) % 2 != 1 or any(bytes(v)[t] >= 32 for t in range(1, len(bytes(v)), 2)) or not 0 <= k < 2 ** 64]
+  return (len(tab) > 0 and not bad,
+          f"{len(tab)} entries, each of odd length with every odd-indexed byte < 32 and a 64-bit key; offending: {bad[:3]}")
